@@ -15,3 +15,10 @@ Definition h_total (g : mgraph) : Z := sumZ (h_weight g) (node_ids g).
 (** every hydrogen atom is bonded to at most one non-hydrogen atom (no bridging hydrogens) *)
 Definition one_parent (g : mgraph) : Prop :=
   forall h, is_Hn g h = true -> (length (filter (fun m => negb (is_Hn g m)) (nbrs g h)) <= 1)%nat.
+
+(** ** the same count on one side of an ITS (typesGH half [sel]): theorem C01_h_to_explicit_balance *)
+Definition iw (sel : inode -> nattr) (a : inode) : Z := if N.eqb (a_el (sel a)) EL_H then 1 else a_hc (sel a).
+Definition its_h_total (sel : inode -> nattr) (I : its) : Z := sumZ (fun p : N * inode => iw sel (snd p)) (gnodes I).
+(** an atom that is a hydrogen on that side has no hydrogens of its own to expand (always so for RDKit readings) *)
+Definition h_safe (sel : inode -> nattr) (ns : list (N * inode)) : Prop :=
+  forall n a, In (n, a) ns -> a_el (sel a) = EL_H -> hx_count a <= 0.
